@@ -78,8 +78,8 @@ Lemma dec_map w l : dec true (WMap w l) =
   let* kvs := dec_pairs l in if keys_nodup (gkeys kvs) then Acc (GMap kvs) else Rej EOther.
 Proof. reflexivity. Qed.
 
-Definition encdec (g : gv) : Prop :=
-  forall b, simple g = true -> enc g = Acc b ->
+Definition encdec (kb : bool) (g : gv) : Prop :=
+  forall b, simple g = true -> enc kb g = Acc b ->
   exists w d, b = ser w /\ good w /\ notags w = true /\ dec true w = Acc d /\ rel g d.
 
 Lemma simple_all_forall l :
@@ -92,16 +92,16 @@ Proof.
 Qed.
 
 (* sequences *)
-Lemma seq_encdec (f : list gv -> res bytes) :
-  (forall l, f l = match l with [] => Acc [] | y :: r => let* a := enc y in let* b := f r in Acc (a ++ b) end) ->
-  forall l bs, Forall encdec l -> Forall (fun y => simple y = true) l -> f l = Acc bs ->
+Lemma seq_encdec kb (f : list gv -> res bytes) :
+  (forall l, f l = match l with [] => Acc [] | y :: r => let* a := enc kb y in let* b := f r in Acc (a ++ b) end) ->
+  forall l bs, Forall (encdec kb) l -> Forall (fun y => simple y = true) l -> f l = Acc bs ->
   exists ws ds, bs = flat_map ser ws /\ length ws = length l /\ Forall good ws /\ forallb notags ws = true /\
                 dec_list ws = Acc ds /\ Forall2 rel l ds.
 Proof.
   intros Hf. induction l as [|y l IH]; intros bs He Hp H; rewrite Hf in H.
   - inversion H; subst. exists [], []. repeat split; constructor.
   - inversion He as [|? ? Hy He']; subst. inversion Hp as [|? ? Py Hp']; subst.
-    destruct (enc y) as [a| | |] eqn:Ey; cbn [bind] in H; try discriminate.
+    destruct (enc kb y) as [a| | |] eqn:Ey; cbn [bind] in H; try discriminate.
     destruct (f l) as [b| | |] eqn:El; cbn [bind] in H; try discriminate.
     inversion H; subst. destruct (Hy a Py Ey) as (w & d & -> & Gw & Nw & Dw & Rw).
     destruct (IH b He' Hp' eq_refl) as (ws & ds & -> & Hl & Gs & Ns & Ds & Rs).
@@ -120,7 +120,7 @@ Definition kwire (k : gv) : wire :=
 
 Definition dkey (k : gv) : gv := match k with GInt _ n => GInt KInt64 n | _ => k end.
 
-Lemma key_facts k a : key_ok k = true -> simple k = true -> enc k = Acc a ->
+Lemma key_facts kb k a : key_ok k = true -> simple k = true -> enc kb k = Acc a ->
   a = ser (kwire k) /\ good (kwire k) /\ dec true (kwire k) = Acc (dkey k) /\ as_map_key (dkey k) = Acc (dkey k) /\ rel k (dkey k) /\
   notags (kwire k) = true.
 Proof.
@@ -153,12 +153,12 @@ Definition pairQ (p : gv * gv) (kv : bytes * bytes) : Prop :=
   dec true (kwire (fst p)) = Acc (dkey (fst p)) /\
   exists wv dv, snd kv = ser wv /\ good wv /\ notags wv = true /\ dec true wv = Acc dv /\ rel (snd p) dv.
 
-Lemma pairs_encdec (f : list gv -> res (list (bytes * bytes))) :
+Lemma pairs_encdec kb (f : list gv -> res (list (bytes * bytes))) :
   (forall l, f l = match l with
-                   | k :: v :: r => let* a := enc k in let* b := enc v in let* c := f r in Acc ((a, b) :: c)
+                   | k :: v :: r => let* a := enc kb k in let* b := enc kb v in let* c := f r in Acc ((a, b) :: c)
                    | _ => Acc []
                    end) ->
-  forall l kvs, Forall encdec l -> Forall (fun y => simple y = true) l -> keys_ok l = true -> f l = Acc kvs ->
+  forall l kvs, Forall (encdec kb) l -> Forall (fun y => simple y = true) l -> keys_ok l = true -> f l = Acc kvs ->
   Forall2 pairQ (pairs l) kvs.
 Proof.
   intros Hf. fix IH 1. intros [|k [|v r]] kvs He Hp Hk H; rewrite Hf in H.
@@ -167,10 +167,10 @@ Proof.
   - inversion He as [|? ? Ek He']; subst. inversion He' as [|? ? Ev He'']; subst.
     inversion Hp as [|? ? Pk Hp']; subst. inversion Hp' as [|? ? Pv Hp'']; subst.
     cbn [keys_ok] in Hk. apply andb_true_iff in Hk as [Kk Kr].
-    destruct (enc k) as [a| | |] eqn:Eka; cbn [bind] in H; try discriminate.
-    destruct (enc v) as [b| | |] eqn:Eva; cbn [bind] in H; try discriminate.
+    destruct (enc kb k) as [a| | |] eqn:Eka; cbn [bind] in H; try discriminate.
+    destruct (enc kb v) as [b| | |] eqn:Eva; cbn [bind] in H; try discriminate.
     destruct (f r) as [c| | |] eqn:Er; cbn [bind] in H; try discriminate.
-    inversion H; subst. destruct (key_facts k a Kk Pk Eka) as (-> & Gk & Dk & _ & _ & _).
+    inversion H; subst. destruct (key_facts kb k a Kk Pk Eka) as (-> & Gk & Dk & _ & _ & _).
     destruct (Ev b Pv Eva) as (wv & dv & -> & Gv & Nv & Dv & Rv).
     cbn [pairs]. constructor; [|apply IH; auto].
     split; [exact Kk|]. cbn [fst snd]. split; [reflexivity|]. split; [exact Gk|]. split; [exact Dk|]. exists wv, dv. auto.
@@ -274,8 +274,8 @@ Lemma forall2_length {A B} (R : A -> B -> Prop) l l' : Forall2 R l l' -> length 
 Proof. induction 1; cbn; auto. Qed.
 
 (* the map case, with everything the header decoders need *)
-Lemma map_encdec l out :
-  Forall encdec l -> simple (GMap l) = true -> enc (GMap l) = Acc out ->
+Lemma map_encdec kb l out :
+  Forall (encdec kb) l -> simple (GMap l) = true -> enc kb (GMap l) = Acc out ->
   exists ww tl dl lp,
     out = ser (WMap ww tl) /\ good (WMap ww tl) /\ forallb notags tl = true /\
     dec_pairs tl = Acc dl /\ keys_nodup (gkeys dl) = true /\
@@ -287,7 +287,7 @@ Proof.
   apply andb_true_iff in Hp as [Hp Hall]. apply andb_true_iff in Hp as [Hlen Hk]. apply simple_all_forall in Hall.
   cbn [enc] in He.
   match type of He with (let* kvs := ?F l in _) = _ => destruct (F l) as [kvs| | |] eqn:EL; cbn [bind] in He; try discriminate;
-    pose proof (pairs_encdec F ltac:(intros [|k [|v r]]; reflexivity) l kvs H Hall Hk EL) as FQ end.
+    pose proof (pairs_encdec kb F ltac:(intros [|k [|v r]]; reflexivity) l kvs H Hall Hk EL) as FQ end.
   apply enc_map_canonical in He as (s & -> & Ss & Ps).
   destruct (Permutation_Forall2 (Permutation_sym Ps) (forall2_flip _ _ _ FQ)) as (lp & Plp & FQ').
   apply forall2_flip in FQ'. cbn beta in FQ'.
@@ -311,13 +311,13 @@ Proof.
 Qed.
 
 (* ---------- the theorem ---------- *)
-Theorem enc_dec : forall g, encdec g.
+Theorem enc_dec : forall kb g, encdec kb g.
 Proof.
-  induction g using gv_ind'; unfold encdec; intros out Hp He; cbn [simple] in Hp; try discriminate.
+  intros kb. induction g using gv_ind'; unfold encdec; intros out Hp He; cbn [simple] in Hp; try discriminate.
   - (* GInt *)
-    destruct (key_facts (GInt k n) out eq_refl Hp He) as (-> & G & D & _ & R & N). exists (kwire (GInt k n)), (dkey (GInt k n)). auto.
+    destruct (key_facts kb (GInt k n) out eq_refl Hp He) as (-> & G & D & _ & R & N). exists (kwire (GInt k n)), (dkey (GInt k n)). auto.
   - (* GStr *)
-    destruct (key_facts (GStr s) out eq_refl Hp He) as (-> & G & D & _ & R & N). exists (kwire (GStr s)), (dkey (GStr s)). auto.
+    destruct (key_facts kb (GStr s) out eq_refl Hp He) as (-> & G & D & _ & R & N). exists (kwire (GStr s)), (dkey (GStr s)). auto.
   - (* GBytes *) cbn [enc] in He. inversion He; subst. exists (tbstr b), (GBytes b). split; [reflexivity|].
     apply andb_true_iff in Hp as [H1 H2]. split; [split; [apply tbstr_wf; split; auto; lia|cbn; apply width_eqb_refl]|].
     split; [reflexivity|]. split; [reflexivity|constructor].
@@ -328,7 +328,7 @@ Proof.
   - (* GArr *) apply andb_true_iff in Hp as [Hlen Hall]. apply simple_all_forall in Hall.
     cbn [enc] in He.
     match type of He with (let* bs := ?F l in _) = _ => destruct (F l) as [bs| | |] eqn:EL; cbn [bind] in He; try discriminate;
-      destruct (seq_encdec F ltac:(intros [|y r]; reflexivity) l bs H Hall EL) as (ws & ds & -> & Hl & Gs & Ns & Ds & Rs) end.
+      destruct (seq_encdec kb F ltac:(intros [|y r]; reflexivity) l bs H Hall EL) as (ws & ds & -> & Hl & Gs & Ns & Ds & Rs) end.
     inversion He; subst. exists (WArr (minw (len ws)) ws), (GArr ds).
     assert (Lw : len ws = len l) by (unfold len; rewrite Hl; reflexivity).
     destruct (forall_good_forallb ws Gs) as [F1 F2].
@@ -337,36 +337,36 @@ Proof.
     split; [cbn [notags]; clear -Ns; induction ws as [|w ws IH]; [reflexivity|]; cbn [forallb] in Ns; apply andb_true_iff in Ns as [A B]; rewrite A; apply IH; exact B|].
     split; [rewrite dec_arr, Ds; reflexivity|constructor; exact Rs].
   - (* GMap *)
-    destruct (map_encdec l out H Hp He) as (ww & tl & dl & lp & -> & G & Nl & Dl & Nd & Plp & Rl & Evn & Kd & _ & _).
+    destruct (map_encdec kb l out H Hp He) as (ww & tl & dl & lp & -> & G & Nl & Dl & Nd & Plp & Rl & Evn & Kd & _ & _).
     exists (WMap ww tl), (GMap dl). split; [reflexivity|]. split; [exact G|].
     split; [cbn [notags]; clear -Nl; induction tl as [|w tl IH]; [reflexivity|]; cbn [forallb] in Nl; apply andb_true_iff in Nl as [A B]; rewrite A; apply IH; exact B|].
     split; [rewrite dec_map, Dl; cbn [bind]; rewrite Nd; reflexivity|econstructor; eauto].
 Qed.
 
 (* maps, with what the header decoders use *)
-Theorem enc_map_dec l out :
-  simple (GMap l) = true -> enc (GMap l) = Acc out ->
+Theorem enc_map_dec kb l out :
+  simple (GMap l) = true -> enc kb (GMap l) = Acc out ->
   exists ww tl dl lp,
     out = ser (WMap ww tl) /\ good (WMap ww tl) /\ forallb notags tl = true /\
     dec_pairs tl = Acc dl /\ keys_nodup (gkeys dl) = true /\
     Permutation (pairs l) lp /\ Forall2 pair_rel lp (pairs dl) /\ Nat.even (length dl) = true /\
     gkeys dl = map (fun p => dkey (fst p)) lp /\
     labels_pass tl = Acc (gkeys dl) /\ values_pass tl = Acc (gvals dl).
-Proof. intros Hs He. apply map_encdec; auto. apply Forall_forall. intros x _. apply enc_dec. Qed.
+Proof. intros Hs He. apply (map_encdec kb); auto. apply Forall_forall. intros x _. apply enc_dec. Qed.
 
 (* the output of the encoder, as bytes, is accepted by the library decoder *)
-Corollary enc_dec_bytes g b :
-  simple g = true -> enc g = Acc b ->
+Corollary enc_dec_bytes kb g b :
+  simple g = true -> enc kb g = Acc b ->
   exists w d, parse_full b = Some w /\ canonical w = true /\ dec true w = Acc d /\ rel g d.
 Proof.
-  intros Hs He. destruct (enc_dec g b Hs He) as (w & d & -> & [Hw Hc] & _ & D & R).
+  intros Hs He. destruct (enc_dec kb g b Hs He) as (w & d & -> & [Hw Hc] & _ & D & R).
   exists w, d. split; [apply parse_full_ser; exact Hw|]. auto.
 Qed.
 
 Example enc_dec_example :
   let g := GMap [GInt KInt 256; GStr [97]; GInt KInt8 (-1); GArr [GBytes []; GBool true; GNilBytes]; GStr []; GMap [GInt KUint8 1; GNil]] in
   simple g = true /\
-  match enc g with
+  match enc false g with
   | Acc b => match parse_full b with
              | Some w => dec true w = Acc (GMap [GInt KInt64 256; GStr [97]; GInt KInt64 (-1); GArr [GBytes []; GBool true; GNil];
                                                  GStr []; GMap [GInt KInt64 1; GNil]])
